@@ -62,7 +62,7 @@ pub fn scenarios(_cfg: &str) -> Vec<Vec<Ev>> {
 type Fut<M> = GenericMutexLockFuture<'static, M, u64>;
 
 pub struct MutexCore<M: RawMutex + 'static> {
-    mutex: &'static GenericMutex<M, u64>,
+    owner: crate::util::Leaked<GenericMutex<M, u64>>,
     fair: bool,
     slots: Slots<Fut<M>>,
     guards: Vec<GenericMutexGuard<'static, M, u64>>,
@@ -76,7 +76,7 @@ impl<M: RawMutex + LockName + 'static> MutexCore<M> {
     fn post(&mut self, ctx: &mut Ctx) {
         let mut regs = vec![];
         self.slots.regs(&mut regs);
-        let mutex = self.mutex;
+        let mutex: &'static GenericMutex<M, u64> = self.owner.get();
         let slots = &self.slots;
         self.view = inspect_and_check(
             ctx,
@@ -140,9 +140,11 @@ impl<M: RawMutex + LockName + 'static> MutexCore<M> {
 impl<M: RawMutex + LockName + 'static> Core for MutexCore<M> {
     fn new(cfg: &str, k: usize, _bounded: bool) -> Self {
         let fair = cfg_num(cfg, "fair", 0) == 1;
-        let mutex: &'static GenericMutex<M, u64> = Box::leak(Box::new(GenericMutex::new(0u64, fair)));
+        let owner = crate::util::Leaked::new(GenericMutex::new(0u64, fair));
+        let mutex: &'static GenericMutex<M, u64> = owner.get();
+        let _ = mutex;
         let mut c = MutexCore {
-            mutex,
+            owner,
             fair,
             slots: Slots::new(k, 0),
             guards: vec![],
@@ -201,7 +203,7 @@ impl<M: RawMutex + LockName + 'static> Core for MutexCore<M> {
 
     fn step(&mut self, ev: Ev, ctx: &mut Ctx) {
         let a = ev.a as usize;
-        let mutex = self.mutex;
+        let mutex: &'static GenericMutex<M, u64> = self.owner.get();
         match ev.k {
             CREATE => self.slots.create(a, &mut self.serial, ctx, 0, || mutex.lock()),
             POLL => {
@@ -278,9 +280,9 @@ impl<M: RawMutex + LockName + 'static> Core for MutexCore<M> {
         }
         self.post(ctx);
         let empty = self.view.queues[0].is_empty() && self.view.prim.head == 0 && self.view.prim.tail == 0;
-        ctx.check("C01", "queue-empty-after-all-futures-dropped", true, empty, || "wait queue not empty at the end of the history".into());
+        ctx.check("C01", "queue-empty-after-all-futures-dropped", crate::slots::inspect_on(), empty, || "wait queue not empty at the end of the history".into());
         // Safety: no future and no guard borrows the mutex any more
-        unsafe { drop(Box::from_raw(self.mutex as *const _ as *mut GenericMutex<M, u64>)) };
+        unsafe { self.owner.reclaim() };
     }
 }
 
